@@ -4,6 +4,21 @@ import json, os
 ROOT = os.path.dirname(os.path.dirname(os.path.abspath(__file__)))
 
 CHECKS = {
+ "C01": dict(
+   text="Every rendering (canonical, every single layout deviation, every uniform style) of every generated full model is pushed through parse/print/parse/print/parse/print, in memory on the parser's own pointer and through the JSON-string API; printing must succeed, the re-parsed model must equal the first (expressions modulo surrounding whitespace), and from the second text on nothing may move (byte stability).",
+   note="Domain = texts written by the reference renderer from the model families (all DSL-conform rewrite shapes to 3/4 leaves, identifier classes incl. keywords, restriction lists, all 24 parameter types, expression alphabet); other accepted byte strings are not enumerated.",
+   technique="bounded exhaustive enumeration of models x layouts with a differential round-trip oracle",
+   design="3/C01"),
+ "C02": dict(
+   text="All rewrite trees up to 3/4 leaves (operators with 1-3 children, depth <= 3, direct assignment in any position and multiplicity) x restriction lists, as protobuf and as JSON text: conversion must succeed exactly when the reference predicate expressible() holds, fail with the unsupported-nesting error otherwise, and parse(print(M)) must equal the reference normal form of M; IsRelationAssignable must agree with the presence of [..].",
+   note="Relations with a direct assignment carry >= 1 restriction; zero-child operators and absent operands are C08's domain; '//' in expressions excluded.",
+   technique="bounded exhaustive enumeration of rewrite trees against a reference predicate and normal form",
+   design="3/C02"),
+ "C03": dict(
+   text="Models x all renderings within a layout-deviation budget (every single deviation at every optional layout element of the combined lexer+parser grammar, pairs on tiny models, every uniform style) are parsed by both DSL entry points and compared with the model that was written (independent AST -> protobuf reference).",
+   note="Layout sites are those of the two .g4 files enumerated in the renderer; constructs the combined grammar does not permit (NEWLINE between condition parameters, tab-indented comment lines) are never generated.",
+   technique="deviation-bounded exhaustive exploration of layout choice points against a reference renderer/AST",
+   design="3/C03"),
  "C18": dict(
    text="All strings up to a bounded length over one representative per character class the rule strings distinguish, plus boundary-length families around every documented limit, go through all nine validators and must agree with a regex-free reference written from the property; the decomposition facts are also checked literally on the implementation's answers; the five rule strings are compared with the JS and Java sources.",
    note="Whitespace = RE2 \\s; JS/Java are bound only through rule-string equality; lengths beyond the bound only via boundary families.",
